@@ -107,6 +107,12 @@ static void stumpff_cs(double *restrict cs, double z) {
 }
 static void stumpff_cs3(double *restrict cs, double z) {
     unsigned int n = 0;
+    if (!isfinite(z)){
+        // A diverging iteration can overflow X. The argument reduction below would then never terminate.
+        // Return NaNs instead so that the caller falls back to bisection.
+        cs[0] = cs[1] = cs[2] = cs[3] = nan("");
+        return;
+    }
     while(fabs(z)>0.1){
         z = z/4.;
         n++;
